@@ -23,7 +23,8 @@ PROPERTY = "C05"
 explorer.PROP = PROPERTY
 
 BEHAVIOURS = ["ret", "read", "httpexc", "exc", "timeout", "stream3", "park", "none", "readpark",
-              "stream-httpexc", "prepare-httpexc", "stream-exc", "stream-other", "stream-noeof", "reuse"]
+              "stream-httpexc", "prepare-httpexc", "stream-exc", "stream-other", "stream-noeof", "reuse",
+              "buffered-chunked-exc", "buffered-compress-httpexc", "buffered-chunked-other"]
 MIDFAIL = ("stream-httpexc", "prepare-httpexc", "stream-exc", "stream-other")
 
 
@@ -136,6 +137,19 @@ class Scen:
             if b == "stream-noeof":
                 return resp
             raise web.HTTPForbidden(headers=hdr)
+        if b.startswith("buffered-"):
+            # a web.Response is prepared (its head is only buffered), then the handler fails or answers with another one
+            resp = web.Response(text="first " * 20, headers=hdr)
+            if "chunked" in b:
+                resp.enable_chunked_encoding()
+            else:
+                resp.enable_compression(web.ContentCoding.gzip)
+            await resp.prepare(request)
+            if b.endswith("-exc"):
+                raise RuntimeError("boom behind a buffered head")
+            if b.endswith("-httpexc"):
+                raise web.HTTPBadRequest(text="bad", headers=hdr)
+            return web.Response(text="other", headers=hdr)
         if b == "reuse":
             # the application keeps one response object and returns it for every request
             if self.shared_resp is None:
